@@ -15,6 +15,7 @@ fn adapter(name: &str, variant: &str) -> Option<Box<dyn Adapter>> {
         "adaptive" => Box::new(adapters::adaptive::AdaptiveAd::new()),
         "retry" => Box::new(adapters::retry::RetryAd::new()),
         "reconnect" => Box::new(adapters::reconnect::ReconnectAd::new()),
+        "timelimiter" => Box::new(adapters::timelimiter::TimeLimiterAd::new()),
         "circuitbreaker" => Box::new(adapters::circuitbreaker::CbAd::new(variant)),
         _ => return None,
     })
